@@ -217,19 +217,22 @@ func slotIn(r *Rand, e, spe uint64) (uint64, string) {
 	}
 }
 
+func isSingle(kind string) bool {
+	return map[string]bool{"attestation": true, "proposal": true, "randao": true, "aggregate": true, "registration": true}[kind]
+}
+
 func gen(r *Rand, i int) Input {
 	chain, e, forkStyle := genChain(r)
-	in := Input{Chain: chain, Kind: kinds[i%len(kinds)]}
+	in := Input{Chain: chain, Req: Req{Kind: kinds[i%len(kinds)]}}
 	if r.Chance(1, 8) {
 		in.Kind = kinds[r.Intn(len(kinds))]
 	}
 	slot, slotStyle := slotIn(r, e, chain.SPE)
 	in.Slot = slot
 	in.Epoch = e
-	single := map[string]bool{"attestation": true, "proposal": true, "randao": true, "aggregate": true, "registration": true}[in.Kind]
 	pool, poolStyle := genPool(r)
 	in.Pool = pool
-	batch, batchStyle := genBatch(r, pool, single)
+	batch, batchStyle := genBatch(r, pool, isSingle(in.Kind))
 	in.Batch = batch
 	in.Tags = []string{forkStyle, slotStyle, poolStyle, batchStyle}
 	if r.Chance(1, 15) {
@@ -238,7 +241,14 @@ func gen(r *Rand, i int) Input {
 	if r.Chance(1, 30) {
 		in.DomFail = true
 	}
-	n := len(batch)
+	in.Tags = append(in.Tags, genContent(r, &in.Req, chain, e)...)
+	return in
+}
+
+// genContent fills in the message of a request whose kind, slot, epoch and batch are chosen.
+func genContent(r *Rand, in *Req, chain ChainDesc, e uint64) (tags []string) {
+	slot := in.Slot
+	n := len(in.Batch)
 	switch in.Kind {
 	case "attestation", "attestations":
 		in.BlockRoot, in.SourceRoot, in.TargetRoot = randHex(r, 32), randHex(r, 32), randHex(r, 32)
@@ -250,10 +260,10 @@ func gen(r *Rand, i int) Input {
 			m := n
 			if r.Chance(1, 25) {
 				m = n + 1
-				in.Tags = append(in.Tags, "indices:one-more")
+				tags = append(tags, "indices:one-more")
 			} else if n > 0 && r.Chance(1, 40) {
 				m = n - 1
-				in.Tags = append(in.Tags, "indices:one-fewer")
+				tags = append(tags, "indices:one-fewer")
 			}
 			for j := 0; j < m; j++ {
 				if r.Chance(1, 4) {
@@ -270,10 +280,10 @@ func gen(r *Rand, i int) Input {
 		m := n
 		if r.Chance(1, 25) {
 			m = n + 1
-			in.Tags = append(in.Tags, "indices:one-more")
+			tags = append(tags, "indices:one-more")
 		} else if n > 0 && r.Chance(1, 40) {
 			m = n - 1
-			in.Tags = append(in.Tags, "indices:one-fewer")
+			tags = append(tags, "indices:one-fewer")
 		}
 		for j := 0; j < m; j++ {
 			in.Idxs = append(in.Idxs, uint64(r.Intn(4)))
@@ -284,7 +294,7 @@ func gen(r *Rand, i int) Input {
 		m := n
 		if r.Chance(1, 25) {
 			m = n + 1
-			in.Tags = append(in.Tags, "contributions:count-mismatch")
+			tags = append(tags, "contributions:count-mismatch")
 		}
 		bbr := randHex(r, 32)
 		mixed := r.Chance(1, 6)
@@ -311,7 +321,318 @@ func gen(r *Rand, i int) Input {
 			in.RegMode = []string{"nil", "nilv1", "version"}[r.Intn(3)]
 		}
 	}
+	return tags
+}
+
+// ---------------------------------------------------------------------------------------------
+// Sessions: several requests made to ONE signer service instance (with ONE set of accounts).
+// The standard signer keeps nothing from one request to the next, so every request of a session
+// must come out as the same request made to a fresh service; what the families below are after is
+// anything remembered across requests -- a signature domain kept per domain type, per epoch or per
+// anything coarser than (domain type, epoch), a memo of signing roots or signatures per account or
+// per slot, result or scratch buffers reused without clearing, an error remembered as a value.
+
+const sessionEvery = 5 // every fifth generated input is a session
+
+// genSessionChain: a duty epoch e >= 3 and a fork schedule with forks INSIDE the window of epochs
+// e-2 .. e+2 that the session's requests are for.
+func genSessionChain(r *Rand) (ChainDesc, uint64, string) {
+	spes := []uint64{32, 32, 8, 4, 2, 1, 6}
+	c := ChainDesc{SPE: spes[r.Intn(len(spes))], GenesisVersion: uint32(r.U64()), GVR: randHex(r, 32)}
+	e := uint64(r.Range(3, 400))
+	if r.Chance(1, 6) {
+		e = uint64(r.Range(1<<20, 1<<30))
+	}
+	ver := func() uint64 { return uint64(uint32(r.U64())) }
+	style := ""
+	switch k := r.Intn(20); {
+	case k < 8: // a fork at every epoch of the window
+		style = "forks:dense"
+		for x := e - 2; x <= e+3; x++ {
+			c.Forks = append(c.Forks, [2]uint64{x, ver()})
+		}
+	case k < 13: // one fork, in the middle of the window
+		style = "forks:one-inside-window"
+		c.Forks = append(c.Forks, [2]uint64{e, ver()})
+	case k < 15:
+		style = "forks:two-inside-window"
+		c.Forks = append(c.Forks, [2]uint64{e - 1, ver()}, [2]uint64{e + 1, ver()})
+	case k < 17: // several at genesis (registrations) and one inside the window
+		style = "forks:at-genesis"
+		c.Forks = append(c.Forks, [2]uint64{0, ver()}, [2]uint64{0, ver()}, [2]uint64{e, ver()})
+	case k < 18:
+		style = "forks:none"
+	default:
+		style = "forks:random"
+		x := uint64(0)
+		for i := r.Range(1, 4); i > 0; i-- {
+			x += uint64(r.Intn(int(e/2 + 2)))
+			c.Forks = append(c.Forks, [2]uint64{x, ver()})
+		}
+	}
+	return c, e, style
+}
+
+// genReq: a request of the given kind for the given epoch, with a batch from the session's pool.
+func genReq(r *Rand, chain ChainDesc, pool []Acc, kind string, e uint64) Req {
+	q := Req{Kind: kind, Epoch: e}
+	q.Slot, _ = slotIn(r, e, chain.SPE)
+	q.Batch, _ = genBatch(r, pool, isSingle(kind))
+	genContent(r, &q, chain, e)
+	return q
+}
+
+// the kinds whose signature domain depends on the epoch (all but the builder registration)
+var epochKinds = []string{"attestation", "attestations", "proposal", "randao", "slotsel", "syncsel", "aggregate", "syncroots", "contributions"}
+
+// sameDomainKind: a kind signed with the same domain type as kind (attestation and attestations
+// share DOMAIN_BEACON_ATTESTER).
+func sameDomainKind(r *Rand, kind string) string {
+	switch kind {
+	case "attestation", "attestations":
+		if r.Bool() {
+			return "attestation"
+		}
+		return "attestations"
+	}
+	return kind
+}
+
+func genSession(r *Rand, i int) Input {
+	chain, e, forkStyle := genSessionChain(r)
+	pool, poolStyle := genPool(r)
+	in := Input{Chain: chain, Pool: pool}
+	if r.Chance(1, 15) {
+		in.Absent = []string{[]string{"sync", "syncsel", "contrib", "builder"}[r.Intn(4)]}
+	}
+	lo := func() uint64 { return e - uint64(r.Range(1, 2)) } // before the fork at e
+	hi := func() uint64 { return e + uint64(r.Intn(3)) }     // at or after it
+	window := func() uint64 { return e - 2 + uint64(r.Intn(5)) }
+	anyKind := func() string { return kinds[r.Intn(len(kinds))] }
+	kind := epochKinds[i%len(epochKinds)]
+	var steps []Req
+	add := func(kind string, e uint64) { steps = append(steps, genReq(r, chain, pool, kind, e)) }
+	shape := ""
+	switch k := r.Intn(19); {
+	case k >= 16: // the node fails the FIRST request for some domain, then answers (sync.Once, error remembered as a value)
+		shape = "session:first-domain-request-fails"
+		// the request whose domain fetch fails: a registration (GenesisDomain) one time in four
+		focus := kinds[r.Intn(len(kinds))]
+		if r.Chance(1, 4) {
+			focus = "registration"
+		}
+		ef := window()
+		probe := Input{Chain: chain, Req: Req{Kind: focus}}
+		focusType, _ := domainKey(probe)
+		otherType := func() string { // a kind signed with another domain type
+			for {
+				k := anyKind()
+				probe.Kind = k
+				if t, _ := domainKey(probe); t != focusType {
+					return k
+				}
+			}
+		}
+		// 0-2 answered requests for OTHER domains first: the failing call is the first, second or third call to the node
+		for j := r.Intn(3); j > 0; j-- {
+			add(otherType(), window())
+		}
+		for j := r.Range(1, 2); j > 0; j-- {
+			add(focus, ef)
+			steps[len(steps)-1].DomFail = true
+		}
+		if r.Bool() {
+			add(otherType(), window())
+		}
+		add(sameDomainKind(r, focus), ef) // the node answers now
+		if r.Bool() {
+			steps = append(steps, steps[len(steps)-1]) // and the same request once more
+		}
+		if r.Bool() {
+			add(sameDomainKind(r, focus), window())
+		}
+	case k < 4: // a duty at or after a fork, then one of the same domain type before it
+		shape = "session:later-epoch-first"
+		add(kind, hi())
+		for j := r.Intn(3); j > 0; j-- {
+			add(anyKind(), window())
+		}
+		add(sameDomainKind(r, kind), lo())
+		if r.Bool() {
+			add(sameDomainKind(r, kind), hi())
+		}
+	case k < 6: // the ordinary direction: before the fork, then after it
+		shape = "session:earlier-epoch-first"
+		add(kind, lo())
+		for j := r.Intn(3); j > 0; j-- {
+			add(anyKind(), window())
+		}
+		add(sameDomainKind(r, kind), hi())
+		if r.Bool() {
+			add(sameDomainKind(r, kind), lo())
+		}
+	case k < 8: // to and fro across the fork
+		shape = "session:zigzag"
+		for j, m := 0, r.Range(3, 6); j < m; j++ {
+			if j%2 == 0 {
+				add(sameDomainKind(r, kind), hi())
+			} else {
+				add(sameDomainKind(r, kind), lo())
+			}
+		}
+	case k < 9: // every step another kind, all for one epoch, then the same kinds for an earlier epoch
+		shape = "session:kinds-of-one-epoch-then-an-earlier-one"
+		m := r.Range(2, 3)
+		p := r.Perm(len(epochKinds))[:m]
+		e1, e0 := hi(), lo()
+		for _, x := range p {
+			add(epochKinds[x], e1)
+		}
+		for _, x := range p {
+			add(epochKinds[x], e0)
+		}
+	case k < 12: // the same kind for the same slot again and again: other message, other accounts
+		shape = "session:same-slot-other-content"
+		first := genReq(r, chain, pool, kind, window())
+		steps = append(steps, first)
+		for j := r.Range(1, 3); j > 0; j-- {
+			q := genReq(r, chain, pool, kind, first.Epoch)
+			q.Slot = first.Slot
+			if kind == "contributions" {
+				for c := range q.Contribs {
+					q.Contribs[c].Slot = first.Slot
+				}
+			}
+			if r.Bool() {
+				q.Batch = append([]int(nil), first.Batch...) // the same accounts, another message
+				q.Idxs, q.Contribs = nil, nil
+				genContent(r, &q, chain, first.Epoch)
+				if kind == "contributions" {
+					for c := range q.Contribs {
+						q.Contribs[c].Slot = first.Slot
+					}
+				}
+			}
+			steps = append(steps, q)
+		}
+		if r.Bool() { // and the very first request once more
+			steps = append(steps, first)
+		}
+	case k < 13: // registrations (genesis domain) among duties of the same accounts
+		shape = "session:registrations-among-duties"
+		for j, m := 0, r.Range(3, 5); j < m; j++ {
+			if j%2 == 1 {
+				add("registration", window())
+			} else {
+				add(anyKind(), window())
+			}
+		}
+	default:
+		shape = "session:random"
+		for j, m := 0, r.Range(2, 6); j < m; j++ {
+			add(anyKind(), window())
+		}
+	}
+	// the node does not answer the first requests of the session, then it does (never the other
+	// way round: a service that remembers a domain it did obtain is not what is looked for here)
+	nodeDown := r.Chance(1, 8)
+	if nodeDown {
+		shape += "+node-down-at-first"
+		m := r.Range(1, len(steps)-1)
+		for j := 0; j < m; j++ {
+			steps[j].DomFail = true
+		}
+		// one of the requests that went unanswered is made again at the end
+		retry := steps[r.Intn(m)]
+		retry.DomFail = false
+		steps = append(steps, retry)
+	}
+	in.Req, in.Then = steps[0], steps[1:]
+	in.Tags = []string{forkStyle, poolStyle, shape}
+	// requests made at once have no order: no node failures among them (see above)
+	anyFail := false
+	for _, q := range steps {
+		anyFail = anyFail || q.DomFail
+	}
+	if r.Chance(1, 6) && !anyFail {
+		in.Concurrent = true
+	}
 	return in
+}
+
+// the domain type a request is signed with, and the epoch whose fork it is to be signed for
+func domainKey(in Input) (string, uint64) {
+	spe := max(in.Chain.SPE, 1)
+	switch in.Kind {
+	case "attestation", "attestations":
+		return "attester", in.Slot / spe
+	case "syncroots":
+		return in.Kind, in.Epoch
+	case "contributions":
+		if len(in.Contribs) > 0 {
+			return in.Kind, in.Contribs[0].Slot / spe
+		}
+	}
+	return in.Kind, in.Slot / spe
+}
+
+// sessionTags are the families of the k-th request of a session that depend on the requests made
+// before it (computed from the input, also for corpus and replay inputs).
+func sessionTags(in Input, k int) []string {
+	if len(in.Then) == 0 {
+		return nil
+	}
+	tags := []string{"session"}
+	if in.Concurrent {
+		tags = append(tags, "session:concurrent")
+	}
+	if k == 0 {
+		return append(tags, "session:first-request")
+	}
+	tags = append(tags, "session:later-request")
+	v := in.view(k)
+	dt, e := domainKey(v)
+	seen := map[string]bool{}
+	note := func(t string) {
+		if !seen[t] {
+			seen[t] = true
+			tags = append(tags, t)
+		}
+	}
+	for j := 0; j < k; j++ {
+		w := in.view(j)
+		dtj, ej := domainKey(w)
+		if dt == "registration" || dtj == "registration" {
+			if dt != dtj {
+				note("session:after-other-domain-type")
+			} else {
+				note("session:after-same-domain-type-same-epoch")
+			}
+			continue
+		}
+		fork := in.Chain.versionAt(e) != in.Chain.versionAt(ej)
+		switch {
+		case dt == dtj && ej > e && fork:
+			note("session:after-same-domain-type-of-later-epoch-across-fork")
+		case dt == dtj && ej < e && fork:
+			note("session:after-same-domain-type-of-earlier-epoch-across-fork")
+		case dt == dtj && ej == e:
+			note("session:after-same-domain-type-same-epoch")
+			if w.Kind == v.Kind && w.Slot == v.Slot {
+				note("session:after-same-kind-same-slot")
+			}
+		case dt == dtj:
+			note("session:after-same-domain-type-other-epoch-same-fork")
+		case ej == e:
+			note("session:after-other-domain-type-same-epoch")
+		default:
+			note("session:after-other-domain-type")
+		}
+		if w.DomFail && !v.DomFail {
+			note("session:after-node-down")
+		}
+	}
+	return tags
 }
 
 // derivedTags are input families computed from the input itself (also for corpus and replay inputs).
